@@ -53,6 +53,7 @@ type Exchange struct {
 	Background bool
 	// Overlap marks exchanges of a twin step: another request was in flight at the same time.
 	Overlap bool
+	ended   bool
 }
 
 // Log is the append-only event log of one run.
@@ -81,7 +82,23 @@ func (l *Log) Begin(e *Exchange) *Exchange {
 func (l *Log) End(e *Exchange) {
 	l.mu.Lock()
 	e.Done = l.now()
+	e.ended = true
 	l.mu.Unlock()
+}
+
+// Ended returns copies of the finished exchanges with Seq >= from on the given link; taken under
+// the log's lock, so a reader on another goroutine sees each exchange whole or not at all.
+func (l *Log) Ended(from int, link string) []*Exchange {
+	l.mu.Lock()
+	defer l.mu.Unlock()
+	var out []*Exchange
+	for _, e := range l.Ex[min(from, len(l.Ex)):] {
+		if e.ended && (link == "" || e.Link == link) {
+			cp := *e
+			out = append(out, &cp)
+		}
+	}
+	return out
 }
 
 // Note appends a free-form trace line.
